@@ -175,6 +175,94 @@ func checkC18(c *Check) {
 		}
 	}
 	c.Obl(n >= 20, "C18.R3", "own-config/count", "-", fmt.Sprintf("%d configuration reads in the handler", n), fmt.Sprintf("only %d configuration reads found (floor 20)", n))
+	// the cookie reader selects the session cookie by the handler's own cookie name only
+	if R.CookieReader != nil && R.CookieName != nil {
+		rd := R.CookieReader
+		var nameCall *ssa.Call
+		for _, ci := range callsToFn(rd, R.CookieName) {
+			nameCall, _ = ci.(*ssa.Call)
+		}
+		nCmp := 0
+		okSel := nameCall != nil
+		why := ""
+		isCookieName := func(v ssa.Value) bool {
+			// a key of the decoded cookies map (range key) — or anything derived from DecodeCookiesHeader
+			for d := range dataDeps(v) {
+				if dc, isC := d.(*ssa.Call); isC && isCallTo(dc, pkgHTTP+".DecodeCookiesHeader") {
+					return true
+				}
+			}
+			return false
+		}
+		for _, b := range rd.Blocks {
+			for _, ins := range b.Instrs {
+				switch x := ins.(type) {
+				case *ssa.BinOp:
+					if (x.Op == token.EQL || x.Op == token.NEQ) && isString(x.X.Type()) {
+						l, r := isCookieName(x.X), isCookieName(x.Y)
+						if l != r {
+							nCmp++
+							other := x.Y
+							if r {
+								other = x.X
+							}
+							if nameCall == nil || resolveCell(stripConv(other)) != ssa.Value(nameCall) {
+								okSel, why = false, "a cookie name is compared with "+descDepth(other, 2)
+							}
+						}
+					}
+				case *ssa.Lookup:
+					if dc, _, isC := asCall(resolveCell(stripConv(x.X))); isC && isCallTo(dc, pkgHTTP+".DecodeCookiesHeader") {
+						nCmp++
+						if nameCall == nil || resolveCell(stripConv(x.Index)) != ssa.Value(nameCall) {
+							okSel, why = false, "the cookies are looked up under "+descDepth(x.Index, 2)
+						}
+					}
+				}
+			}
+		}
+		c.Obl(okSel && nCmp >= 1, "C18.R3", "cookie-selected-by-own-name", P.Pos(rd.Pos()), "the session id is taken only from the cookie named getCookieName(handler configuration)",
+			"the cookie reader also accepts a cookie that is not named by the filter's own cookie name ("+why+"): another filter's session cookie is honoured")
+	}
+	// the discovery cache is keyed by the exact configuration URI that is fetched
+	if gw := P.Func(pkgOIDC, "GetWellKnownConfig"); gw != nil {
+		var urlParam *ssa.Parameter
+		for _, p := range gw.Params {
+			if isString(p.Type()) {
+				urlParam = p
+			}
+		}
+		okKey, nAcc := urlParam != nil, 0
+		for _, b := range gw.Blocks {
+			for _, ins := range b.Instrs {
+				var idx, mp ssa.Value
+				switch x := ins.(type) {
+				case *ssa.Lookup:
+					idx, mp = x.Index, x.X
+				case *ssa.MapUpdate:
+					idx, mp = x.Key, x.Map
+				}
+				if idx == nil {
+					continue
+				}
+				if cl, _ := classOfMap(mp); !strings.HasPrefix(cl, "global:") {
+					continue
+				}
+				nAcc++
+				if resolveCell(stripConv(idx)) != ssa.Value(urlParam) {
+					okKey = false
+				}
+			}
+		}
+		fetchSame := false
+		for _, ci := range callsTo(gw, "net/http.Client.Get") {
+			if a := callArgs(ci); len(a) == 1 && resolveCell(stripConv(a[0])) == ssa.Value(urlParam) {
+				fetchSame = true
+			}
+		}
+		c.Obl(okKey && nAcc >= 2 && fetchSame, "C18.R3", "discovery-cache-key", P.Pos(gw.Pos()), "the discovery cache is read and written under the exact configuration URI that is fetched",
+			"the discovery cache is not keyed by the exact configuration URI: two filters whose URIs differ (e.g. only in the query) can receive each other's endpoints")
+	}
 	// no package-level OIDCConfig in the handler package
 	for name, mem := range P.SSA[pkgAuthz].Members {
 		if g, ok := mem.(*ssa.Global); ok && strings.Contains(g.Type().String(), "OIDCConfig") {
@@ -466,6 +554,39 @@ func checkC19(c *Check) {
 			}
 		}
 		refuse = neEmpty && neCur
+	}
+	// with a foreign namespace no index registration is reachable at all
+	{
+		atoms := atomEnv{}
+		for _, b := range load.Blocks {
+			for _, ins := range b.Instrs {
+				bo, ok := ins.(*ssa.BinOp)
+				if !ok || (bo.Op != token.NEQ && bo.Op != token.EQL) || !depFields(bo.X)["Namespace"] {
+					continue
+				}
+				if s2, isC := constString(bo.Y); isC && s2 == "" {
+					atoms[bo] = bo.Op == token.NEQ
+				} else if depFields(bo.Y)["namespace"] {
+					atoms[bo] = bo.Op == token.NEQ
+				}
+			}
+		}
+		var reg ssa.Instruction
+		if len(atoms) >= 2 {
+			reg = existsPathInLoop(load, atoms, func(i ssa.Instruction) bool {
+				mu, ok := i.(*ssa.MapUpdate)
+				if !ok {
+					return false
+				}
+				_, f, okf := fieldLoad(resolveCell(stripConv(mu.Map)))
+				return okf && f != nil && f.Name() == "secrets"
+			})
+		}
+		if refuse && reg != nil {
+			refuse = false
+		}
+		c.Obl(len(atoms) >= 2 && reg == nil, "C19.R4", "no-registration-for-foreign-namespace", P.Pos(load.Pos()), "a reference into another namespace never reaches the index registration",
+			"a reference whose namespace is non-empty and differs from the current one can still be registered in the index ("+posOf(P, reg)+"): it would be refused only under additional conditions")
 	}
 	c.Obl(refuse, "C19.R4", "refusal", P.Pos(load.Pos()), "foreign namespace ⇒ ErrCrossNamespaceSecretRef", "a secret reference into another namespace is not refused with ErrCrossNamespaceSecretRef")
 	prop := false
